@@ -113,10 +113,12 @@ def canon_model_line(line):
 
 
 _MOD = None
+_LISTED = frozenset()
 
 
-def _init_worker(modname):
-    global _MOD
+def _init_worker(modname, listed=()):
+    global _MOD, _LISTED
+    _LISTED = frozenset(listed)
     sys.path.insert(0, REPO)
     sys.path.insert(0, os.path.join(VERIF, "harness"))
     sys.setrecursionlimit(10000)
@@ -140,15 +142,21 @@ def _process_chunk(chunk):
         o = mod.observe(case)
         t_impl += time.perf_counter() - t0
         assert len(r) == len(o), (case, r, o)
-        spans.append((len(reqs), len(r)))
+        x = mod.extra_requests(case) if hasattr(mod, "extra_requests") else []
+        spans.append((len(reqs), len(r), len(x)))
         reqs.extend(r)
+        reqs.extend(x)
         obs_all.append(o)
     outs = [canon_model_line(x) for x in run_model(reqs)]
-    res = {"cases": len(chunk), "observations": len(reqs), "disagreements": [], "n_disagree": 0,
+    res = {"cases": len(chunk), "observations": sum(ln for (_, ln, _) in spans), "disagreements": [], "n_disagree": 0,
            "violations": [], "n_viol": 0, "hist": {}, "model_errors": 0, "samples": [], "t_impl": t_impl,
-           "nontrivial": 0, "keys": []}
-    for case, (st, ln), o in zip(chunk, spans, obs_all):
+           "nontrivial": 0, "keys": [], "n_unlisted": 0, "by_finding": {}, "listed_samples": {}, "model_hist": {}}
+    for case, (st, ln, nx), o in zip(chunk, spans, obs_all):
         m = outs[st:st + ln]
+        if nx:
+            # model-only requests (coverage of the model's own case structure); never compared
+            for k, n in mod.model_stats(case, outs[st + ln:st + ln + nx]).items():
+                res["model_hist"][k] = res["model_hist"].get(k, 0) + n
         if any(x.startswith("(error") for x in m):
             res["model_errors"] += 1
         if m != o:
@@ -160,22 +168,21 @@ def _process_chunk(chunk):
         v = mod.judge(case, o)
         if v is not None:
             res["n_viol"] += 1
-            if len(res["violations"]) < MAX_KEEP:
-                finding = None
-                for name, pred in getattr(mod, "FINDING_PREDS", {}).items():
-                    if pred(case, o):
-                        finding = name
-                        break
-                res["violations"].append({"case": mod.describe(case), "what": v, "finding": finding, "obs": o})
+            finding = None
+            for name, pred in getattr(mod, "FINDING_PREDS", {}).items():
+                if name in _LISTED and pred(case, o):
+                    finding = name
+                    break
+            rec = {"case": mod.describe(case), "what": v, "finding": finding, "obs": o}
+            if finding is None:
+                # a violation no listed finding accounts for is never dropped
+                if len(res["violations"]) < 4 * MAX_KEEP:
+                    res["violations"].append(rec)
+                res["n_unlisted"] += 1
             else:
-                # still need attribution for counting: unlisted violations must never be dropped
-                finding = None
-                for name, pred in getattr(mod, "FINDING_PREDS", {}).items():
-                    if pred(case, o):
-                        finding = name
-                        break
-                if finding is None:
-                    res["violations"].append({"case": mod.describe(case), "what": v, "finding": None, "obs": o})
+                res["by_finding"][finding] = res["by_finding"].get(finding, 0) + 1
+                if finding not in res["listed_samples"]:
+                    res["listed_samples"][finding] = rec
         b = mod.classify(case, o)
         res["hist"][b] = res["hist"].get(b, 0) + 1
         if getattr(mod, "nontrivial", None) and mod.nontrivial(case, o):
@@ -186,13 +193,14 @@ def _process_chunk(chunk):
     return res
 
 
-def run_correspondence(modname, tier, seed, extra_chunks=None):
+def run_correspondence(modname, tier, seed, extra_chunks=None, listed=()):
     """Run the whole correspondence + property evaluation for one property."""
     sys.path.insert(0, REPO)
     sys.path.insert(0, os.path.join(VERIF, "harness"))
     mod = importlib.import_module(modname)
     total = {"cases": 0, "observations": 0, "disagreements": [], "n_disagree": 0, "violations": [],
-             "n_viol": 0, "hist": {}, "model_errors": 0, "samples": [], "t_impl": 0.0, "nontrivial": 0}
+             "n_viol": 0, "hist": {}, "model_errors": 0, "samples": [], "t_impl": 0.0, "nontrivial": 0,
+             "n_unlisted": 0, "by_finding": {}, "listed_samples": {}, "model_hist": {}}
     t0 = time.time()
     seen = set()
 
@@ -204,10 +212,17 @@ def run_correspondence(modname, tier, seed, extra_chunks=None):
             yield c
 
     ctx = mp.get_context("fork")
-    with ctx.Pool(JOBS, initializer=_init_worker, initargs=(modname,)) as pool:
+    with ctx.Pool(JOBS, initializer=_init_worker, initargs=(modname, tuple(listed))) as pool:
         for res in pool.imap_unordered(_process_chunk, gen(), chunksize=1):
-            for k in ("cases", "observations", "n_disagree", "n_viol", "model_errors", "t_impl", "nontrivial"):
+            for k in ("cases", "observations", "n_disagree", "n_viol", "model_errors", "t_impl", "nontrivial",
+                      "n_unlisted"):
                 total[k] += res[k]
+            for f, n in res["model_hist"].items():
+                total["model_hist"][f] = total["model_hist"].get(f, 0) + n
+            for f, n in res["by_finding"].items():
+                total["by_finding"][f] = total["by_finding"].get(f, 0) + n
+            for f, rec in res["listed_samples"].items():
+                total["listed_samples"].setdefault(f, rec)
             for k in ("disagreements", "violations"):
                 room = 200 - len(total[k])
                 if room > 0:
